@@ -62,6 +62,9 @@ COMBOS = [
 _LABEL_KINDS = ['str', 'int', 'negint', 'float', 'IndexDate', 'hier2', 'auto']
 
 
+TECHNIQUE = 'runtime monitoring: reference-model oracle (set algebra on label lists; label-wise cell reference computed with NumPy scalars) for set operations and binary operators between differently labelled Series / Frames'
+
+
 def probes(ctx):
     return [
         {'t': 'series_op', 'kind': 'str', 'la': ['a', 'b'], 'lb': ['b', 'c'], 'rel': 'overlap', 'da': '<U2', 'db': '<U2', 'op': 'add',
